@@ -214,6 +214,22 @@ fn reduct(f: &F, v: &V3) -> F {
 fn tv(t: &Term) -> Option<bool> { if *t == Term::TOP { Some(true) } else if *t == Term::BOT { Some(false) } else { None } }
 fn tvs(v: &[Term]) -> V3 { v.iter().map(tv).collect() }
 fn sorted(mut v: Vec<V3>) -> Vec<V3> { v.sort(); v }
+/// delivery order of `stable_nogood(h)` on a freshly built ADF (`warm == 0`) or on one that has computed something else first,
+/// in its own thread with a 20 s limit (termination is not proved: a search that does not return must not hang the harness)
+fn order_probe(text: &str, hi: usize, warm: usize) -> Option<Vec<V3>> {
+    let txt = text.to_string();
+    let (tx, rx) = std::sync::mpsc::channel::<Vec<V3>>();
+    std::thread::spawn(move || {
+        let h = [Heuristic::Simple, Heuristic::MinModMinPathsMaxVarImp, Heuristic::MinModMaxVarImpMinPaths][hi];
+        let parser = AdfParser::default();
+        if parser.parse()(&txt).is_err() { return; }
+        let mut adf = Adf::from_parser(&parser);
+        match warm { 0 => {} 1 => { let _ = adf.grounded(); let _ = adf.complete().count(); let _ = adf.stable().count(); } 2 => { let _ = adf.stable_nogood(Heuristic::Simple).count(); } _ => { let _ = adf.complete().count(); } }
+        let r: Vec<V3> = adf.stable_nogood(h).map(|v| tvs(&v)).collect();
+        let _ = tx.send(r);
+    });
+    rx.recv_timeout(std::time::Duration::from_secs(20)).ok()
+}
 fn run_adf(seed: u64, budget: usize) -> ! {
     let mut rng = Rng(seed.wrapping_mul(0xD1B54A32D192ED03) | 1);
     let mut checked = 0;
@@ -303,11 +319,11 @@ fn run_adf(seed: u64, budget: usize) -> ! {
         // C11: the ORDER in which the nogood search delivers its models on this warm object (grounded, complete, nine stable variants
         // have run on it) equals the order on a freshly built object, for the deterministic heuristics
         if !c05_hung {
-            for h in [Heuristic::Simple, Heuristic::MinModMinPathsMaxVarImp, Heuristic::MinModMaxVarImpMinPaths] {
-                let mut fresh = Adf::from_parser(&parser);
-                let a: Vec<V3> = fresh.stable_nogood(h).map(|v| tvs(&v)).collect();
-                let b: Vec<V3> = native.stable_nogood(h).map(|v| tvs(&v)).collect();
-                if a != b { fail(&format!("C11 stable_nogood({:?}) on a warm object delivers another sequence than on a fresh object", h), format!("{:?}", b), format!("{:?}", a)); }
+            for hi in 0..3 {
+                match (order_probe(&text, hi, 0), order_probe(&text, hi, 1)) {
+                    (Some(a), Some(b)) => { if a != b { fail(&format!("C11 stable_nogood(heuristic #{}) on a warm object delivers another sequence than on a fresh object", hi), format!("{:?}", b), format!("{:?}", a)); } }
+                    _ => { c05_hung = true; fail(&format!("C05 stable_nogood(heuristic #{}) did not return within 20 s on a fresh / warmed-up object", hi), "no answer".into(), "termination".into()); break; }
+                }
             }
         }
         // C11: repeated call on the warm object
@@ -341,13 +357,13 @@ fn run_adf(seed: u64, budget: usize) -> ! {
             for i in 0..m { t2.push_str(&format!("ac({},{}).", name(i), show(&gs[i]))); }
             let p2 = AdfParser::default();
             if p2.parse()(&t2).is_ok() {
-                for h in [Heuristic::MinModMinPathsMaxVarImp, Heuristic::MinModMaxVarImpMinPaths, Heuristic::Simple] {
-                    let mut fresh = Adf::from_parser(&p2);
-                    let a: Vec<V3> = fresh.stable_nogood(h).map(|v| tvs(&v)).collect();
-                    let mut warm = Adf::from_parser(&p2);
-                    match rng.below(3) { 0 => { let _ = warm.stable().count(); } 1 => { let _ = warm.stable_nogood(Heuristic::Simple).count(); } _ => { let _ = warm.complete().count(); } }
-                    let b: Vec<V3> = warm.stable_nogood(h).map(|v| tvs(&v)).collect();
-                    if a != b { record(format!("C11 stable_nogood({:?}) on ADF `{}`: a warm object delivers {:?}, a fresh one {:?}", h, t2, b, a)); continue 'round; }
+                for hi in [1usize, 2, 0] {
+                    if c05_hung { break; }
+                    let w = 1 + rng.below(3);
+                    match (order_probe(&t2, hi, 0), order_probe(&t2, hi, w)) {
+                        (Some(a), Some(b)) => { if a != b { record(format!("C11 stable_nogood(heuristic #{}) on ADF `{}`: a warm object (history {}) delivers {:?}, a fresh one {:?}", hi, t2, w, b, a)); continue 'round; } }
+                        _ => { c05_hung = true; record(format!("C05 stable_nogood(heuristic #{}) did not return within 20 s on ADF `{}`", hi, t2)); }
+                    }
                 }
             }
         }
